@@ -14,6 +14,8 @@ for p in ["C%02d" % i for i in range(1, 21)]:
         JOBS.append((p, k + 7, "/tmp/seed4-%s/%d" % (p, k), "/tmp/confirm4/%s-%d.json" % (p, k), "/tmp/seedrun4/%s-%d.txt" % (p, k), "round 4: asked for contract drift - one side of two things that are supposed to agree (sibling API forms, trait laws, wrapper vs implementation, documented return/panic conventions)"))
     for k in (1, 2):
         JOBS.append((p, k + 9, "/tmp/seed8-%s/%d" % (p, k), "/tmp/confirm8/%s-%d.json" % (p, k), "/tmp/seedrun8/%s-%d.txt" % (p, k), "round 5: asked for optimisations gone wrong - fast paths, early exits, skipped work, in-place reuse, cheaper special-case routines, dropped normalisation or guards \"the caller already did\""))
+    for k in (1, 2):
+        JOBS.append((p, k + 11, "/tmp/seed10-%s/%d" % (p, k), "/tmp/confirm10/%s-%d.json" % (p, k), "/tmp/seedrun10/%s-%d.txt" % (p, k), "round 6: free choice of defect again (as round 1), on the final machinery"))
 for (p, k, src, conf, run, rnd) in JOBS:
     if True:
         if not (os.path.exists(src + "/patch.diff") and os.path.exists(conf)):
